@@ -106,10 +106,11 @@ def make_callable(slot, spec):
 
 
 class Real:
-    def __init__(self, kind, auto, d):
+    def __init__(self, kind, auto, d, kwargs=None, label=""):
         self.kind, self.auto = kind, auto
-        self.name = "%s%s" % (kind, "+idx" if auto else "-idx")
-        self.path = os.path.join(d, self.name.replace("+", "p").replace("-", "m") + ".csv")
+        self.kwargs = dict(kwargs or {})
+        self.name = "%s%s%s" % (kind, "+idx" if auto else "-idx", label)
+        self.path = os.path.join(d, "".join(ch if ch.isalnum() else "_" for ch in self.name) + ".csv")
         self.handles = {}
         self.open()
 
@@ -118,7 +119,7 @@ class Real:
         from tinyflux.storages import MemoryStorage
 
         if self.kind == "csv":
-            self.db = TinyFlux(self.path, auto_index=self.auto)
+            self.db = TinyFlux(self.path, auto_index=self.auto, **self.kwargs)
         else:
             self.db = TinyFlux(storage=MemoryStorage, auto_index=self.auto)
         self.handles = {}
@@ -150,7 +151,7 @@ class Lockstep:
         self.opts = opts or {}
         self.dir = ctx.fresh_dir()
         self.model = model.Model()
-        self.reals = [Real(k, a, self.dir) for k, a in (configs or CONFIGS)]
+        self.reals = [Real(c[0], c[1], self.dir, *(c[2:])) for c in (configs or CONFIGS)]
         self.log = []
         self.flags = set()  # history features seen so far
         self.last_probe = None
